@@ -5,7 +5,8 @@ ONLY property theorems and non-vacuity examples live here.  The model is
 `ImmuModel/Store/Commit.lean` (the commit state machine of embedded/store/immustore.go at LOCK
 granularity: one `step` = one critical section under `s.mutex` / `commitStateRWMutex`), the
 invariants are in `Store/CommitInv.lean`, the proofs in `Store/CommitLog.lean`,
-`Store/CommitBl.lean`, `Store/CommitWitness.lean`.
+`Store/CommitBl.lean`, `Store/CommitWitness.lean`, `Store/CommitWrite.lean` (in-place tx-log write),
+`Store/CommitReload.lean` (what `Open` reloads).
 
 `hs : Hs D` is an ARBITRARY hash (nothing is assumed about it), `z` the zero digest.
 
@@ -15,6 +16,7 @@ What "committed history" means in the model: `committedRecs s` = for every commi
 import ImmuModel.Store.CommitLog
 import ImmuModel.Store.CommitBl
 import ImmuModel.Store.CommitWitness
+import ImmuModel.Store.CommitReload
 
 namespace ImmuModel.Props.C02
 open ImmuModel ImmuModel.Tx ImmuModel.Merkle ImmuModel.Store ImmuModel.Store.Commit
@@ -111,6 +113,87 @@ make the asynchronous syncer's effect observable deterministically). -/
 theorem sync_idempotent (hs : Hs D) (s : St D) (h : InvLog hs s) :
     (syncOp (syncOp s).1).1 = (syncOp s).1 :=
   syncOp_idem hs s h
+
+/-! ### what `Open` reloads (pre-committed txs) -/
+
+omit [DecidableEq D] in
+/-- **Shape of the pre-committed part.** In every state satisfying the extents/chain invariant
+(hence in every reachable state, `reachable_invLog`) the pre-committed txs are real records of the
+tx log with the ids `committed+1, committed+2, …`; every accumulated hash is the one computed from
+the stored header; the first one's `PrevAlh` is the reported committed state, every other one's
+is the accumulated hash of its predecessor; `PrecommittedAlh` is the hash of the last of them. -/
+theorem precommitted_history_wellformed (hs : Hs D) (s : St D) (h : InvLog hs s) :
+    ∃ recs : List (Rec D), s.buf.map (fun e => s.log[e.off]?) = recs.map some ∧
+      s.committed + recs.length = s.preID ∧
+      (∀ k (hk : k < recs.length),
+        (recs[k]).hdr.id = s.committed + k + 1 ∧ alh hs (recs[k]).hdr = some (recs[k]).alh) ∧
+      (∀ (_ : 0 < recs.length), (recs[0]).hdr.prevAlh = s.comAlh) ∧
+      (∀ k (hk : k + 1 < recs.length), (recs[k + 1]).hdr.prevAlh = (recs[k]'(by omega)).alh) ∧
+      s.preAlh = (match recs.getLast? with | some r => r.alh | none => s.comAlh) :=
+  precommitted_chain hs s h
+
+/-- **Every tx reloaded by `Open` chains to its predecessor**: whatever lies in the tx log behind
+the last committed record (records of discarded branches, overwritten in place or not), the txs
+`Open` puts back into cLogBuf have dense ids and a `PrevAlh` chain starting at the last committed
+tx — the statement the seeded change c02-a (`||` → `&&` in the reload loop) breaks. -/
+theorem open_reloaded_txs_chain (hs : Hs D) (s : St D) (cfg : Cfg) (useExt : Bool) (h : InvLog hs s) :
+    ∃ recs : List (Rec D),
+      (openStore hs s cfg useExt).1.buf.map (fun e => (openStore hs s cfg useExt).1.log[e.off]?)
+        = recs.map some ∧
+      (openStore hs s cfg useExt).1.committed + recs.length = (openStore hs s cfg useExt).1.preID ∧
+      (∀ k (hk : k < recs.length),
+        (recs[k]).hdr.id = (openStore hs s cfg useExt).1.committed + k + 1 ∧
+        alh hs (recs[k]).hdr = some (recs[k]).alh) ∧
+      (∀ (_ : 0 < recs.length), (recs[0]).hdr.prevAlh = (openStore hs s cfg useExt).1.comAlh) ∧
+      (∀ k (hk : k + 1 < recs.length), (recs[k + 1]).hdr.prevAlh = (recs[k]'(by omega)).alh) ∧
+      (openStore hs s cfg useExt).1.preAlh =
+        (match recs.getLast? with | some r => r.alh | none => (openStore hs s cfg useExt).1.comAlh) :=
+  precommitted_chain hs _ (step_invLog hs (hs.H []) s (.open_ cfg useExt) h)
+
+/-- **The reload loop takes exactly the longest chaining prefix** of the records `recs` lying behind
+the last committed one: `n` of them are reloaded (ids `preID+1 …`, entries at consecutive
+positions with the stored hashes); each has the next id AND its predecessor's accumulated hash as
+`PrevAlh`; and record `n`, if there is one, fails the id test or the `PrevAlh` test. -/
+theorem reload_takes_longest_chaining_prefix (s : St D) (recs : List (Rec D)) :
+    ∃ n, n ≤ recs.length ∧ (scan s recs).preID = s.preID + n ∧
+      (scan s recs).preAlh = prevOf s.preAlh recs n ∧
+      (scan s recs).logEnd = s.logEnd + n ∧
+      (∃ added : List (Ent D), (scan s recs).buf = s.buf ++ added ∧ added.length = n ∧
+        ∀ k e, added[k]? = some e → ∃ r, recs[k]? = some r ∧ e.txID = s.preID + k + 1 ∧
+          e.alh = r.alh ∧ e.off = s.logEnd + k) ∧
+      (∀ k r, k < n → recs[k]? = some r →
+        r.hdr.id = s.preID + k + 1 ∧ r.hdr.prevAlh = prevOf s.preAlh recs k) ∧
+      (∀ r, recs[n]? = some r →
+        ¬ (r.hdr.id = s.preID + n + 1 ∧ r.hdr.prevAlh = prevOf s.preAlh recs n)) :=
+  scan_longest_chaining_prefix s recs
+
+/-- A record failing EITHER test (wrong id, or a `PrevAlh` that is not the accumulated hash of the
+last reloaded tx) ends the reload: it and everything behind it stay out of the history. -/
+theorem reload_rejects_nonchaining_record (s : St D) (r : Rec D) (rest : List (Rec D))
+    (h : r.hdr.id ≠ s.preID + 1 ∨ r.hdr.prevAlh ≠ s.preAlh) : scan s (r :: rest) = s := by
+  unfold scan
+  rw [if_neg]
+  intro ⟨a, b⟩
+  rcases h with h | h
+  · exact h a
+  · exact h b
+
+/-- **The id test alone is not enough** (why the `PrevAlh` test of the reload loop is needed).
+There are a hash, a configuration and an op sequence from the fresh store — 1A precommitted and
+discarded; 1B, 2B precommitted; close; open; 1A discarded again; 1C, of the size of 1B,
+precommitted in place of 1B and committed; close; open — after which the record lying right at
+`precommittedTxLogSize` carries exactly the next id but does not chain to the last committed tx,
+and `Open` has not reloaded it. -/
+theorem stale_record_with_next_id_reachable :
+    ∃ (hs : Hs Digest) (z : Digest) (cfg : Cfg) (ops : List (Op Digest)) (r : Rec Digest),
+      (run hs z (init hs cfg true) ops).log[(run hs z (init hs cfg true) ops).logEnd]? = some r ∧
+      r.hdr.id = (run hs z (init hs cfg true) ops).preID + 1 ∧
+      r.hdr.prevAlh ≠ (run hs z (init hs cfg true) ops).preAlh ∧
+      (run hs z (init hs cfg true) ops).preID = (run hs z (init hs cfg true) ops).committed ∧
+      (run hs z (init hs cfg true) ops).committed = 1 :=
+  ⟨Witness.toyHs, Witness.zeroD, Witness.cfgW, Stale.opsS, _, Stale.stale_rec_at_logEnd,
+   Stale.stale_rec_facts.1, Stale.stale_rec_facts.2.1, Stale.stale_rec_facts.2.2.1,
+   Stale.stale_rec_facts.2.2.2⟩
 
 /-! ### binary linking -/
 
